@@ -15,7 +15,7 @@ RULE = (
     "from {1/4, 1/3, 1/2, 1, 2, 3, 5, 8} with either sign, 1..6 slits obtained by cutting the circle "
     "into alternating slit/gap arcs (widths and gaps >= 1e-3 rad, optionally started anywhere so that a "
     "slit spans top-dead-centre with end > 2 pi), a permutation of the slit order, deg or rad per "
-    "angle, beam position in [-2 pi, 2 pi], phase over +-3 turns and 1..4 pulses. Oracle: a "
+    "angle (slit edges optionally as whole degrees in an int64 array), beam position in [-2 pi, 2 pi], phase over +-3 turns and 1..4 pulses. Oracle: a "
     "rotating-disk simulator written from the module documentation. Each reported pair must be "
     "open < close, open inside, closed just outside, of duration width/|omega|, and the sorted "
     "reported openings must equal the simulator's openings inside the covered span (no duplicate, "
@@ -78,6 +78,8 @@ def chopper_cases(draw, with_pulses=False):
         "bp_unit": draw(st.sampled_from(sorted(A_UNITS))),
         "phase": draw(st.one_of(st.just(0.0), st.floats(-3 * disk.TWO_PI, 3 * disk.TWO_PI))),
         "phase_unit": draw(st.sampled_from(sorted(A_UNITS))),
+        # slit edges given as whole degrees in an integer array (as in the package's own examples)
+        "int_edges": draw(st.sampled_from([False, False, True])),
     }
     if with_pulses:
         case["npulses"] = draw(st.integers(1, 4))
@@ -103,6 +105,14 @@ def build(case, slits=None):
     slits = case["slits"] if slits is None else slits
     b_st = [_stored(b, au) for b, _ in slits]
     e_st = [_stored(e, au) for _, e in slits]
+    edge_dtype = "float64"
+    if case.get("int_edges") and case["slit_unit"] == "deg":
+        bi, ei = [round(b) for b in b_st], [round(e) for e in e_st]
+        arcs = sorted(zip(bi, ei, strict=True))
+        ok = all(e - b >= 1 for b, e in arcs) and all(arcs[k + 1][0] - arcs[k][1] >= 1 for k in range(len(arcs) - 1)) \
+            and (arcs[0][0] + 360 - arcs[-1][1] >= 1)
+        if ok:
+            b_st, e_st, edge_dtype = bi, ei, "int64"
     bp_st = _stored(case["bp"], A_UNITS[case["bp_unit"]])
     ph_st = _stored(case["phase"], A_UNITS[case["phase_unit"]])
     kwargs = {
@@ -110,8 +120,8 @@ def build(case, slits=None):
         "frequency": sc.scalar(f_st, unit=case["f_unit"]),
         "beam_position": sc.scalar(bp_st, unit=case["bp_unit"]),
         "phase": sc.scalar(ph_st, unit=case["phase_unit"]),
-        "slit_begin": sc.array(dims=["slit"], values=b_st, unit=case["slit_unit"]),
-        "slit_end": sc.array(dims=["slit"], values=e_st, unit=case["slit_unit"]),
+        "slit_begin": sc.array(dims=["slit"], values=b_st, unit=case["slit_unit"], dtype=edge_dtype),
+        "slit_end": sc.array(dims=["slit"], values=e_st, unit=case["slit_unit"], dtype=edge_dtype),
     }
     pulse = sc.scalar(fp_st, unit=case["fp_unit"])
     ref = {
@@ -120,6 +130,7 @@ def build(case, slits=None):
         "phase": ph_st * A_UNITS[case["phase_unit"]],
         "slits": [(b * au, e * au) for b, e in zip(b_st, e_st, strict=True)],
         "fp": fp_st * F_UNITS[case["fp_unit"]],
+        "edge_dtype": edge_dtype,
     }
     return kwargs, pulse, ref
 
@@ -188,6 +199,7 @@ def check_openings(case):
 
     labs, nt = labels_of(case)
     kwargs, pulse, ref = build(case)
+    labs.append("edges:" + ref["edge_dtype"])
     ch = DiskChopper(**kwargs)
     to = ch.time_offset_open(pulse_frequency=pulse)
     tc = ch.time_offset_close(pulse_frequency=pulse)
